@@ -49,6 +49,7 @@ def main():
             os.makedirs(os.path.dirname(dst), exist_ok=True)
             shutil.copy(srcp, dst); placed.append(dst)
         demo = meta["demo_cmd"].replace("/tmp/mut/%s" % prop, WT)
+        demo = re.sub(r"cp\s+\S*MUTANT\S*\s+\S+\s*&&", "", demo)  # the demo files are already in place
         rc0, out0 = sh(demo, WT)
         res["demo_without_patch_rc"] = rc0
         rc, out = sh("git apply %s/patch.diff || git apply -3 %s/patch.diff" % (m, m), WT)
